@@ -916,6 +916,17 @@ impl Interpreter {
         source: &str,
         module_path: Option<crate::ModulePath>,
     ) -> Result<StepResult, JsError> {
+        match self.eval_unmaterialized(source, module_path) {
+            Err(error) => Err(self.materialize_thrown_error(error)),
+            ok => ok,
+        }
+    }
+
+    fn eval_unmaterialized(
+        &mut self,
+        source: &str,
+        module_path: Option<crate::ModulePath>,
+    ) -> Result<StepResult, JsError> {
         use crate::compiler::Compiler;
         use bytecode_vm::BytecodeVM;
 
@@ -1166,6 +1177,17 @@ impl Interpreter {
     /// Call `prepare()` to set up execution before using `step()`.
     #[inline]
     pub fn step(&mut self) -> Result<StepResult, JsError> {
+        // Whatever path an uncaught exception leaves by (the main program, a module being
+        // loaded for it, a resumed continuation), the host gets it as data, never as a
+        // ThrownValue holding heap pointers
+        match self.step_unmaterialized() {
+            Err(error) => Err(self.materialize_thrown_error(error)),
+            ok => ok,
+        }
+    }
+
+    #[inline]
+    fn step_unmaterialized(&mut self) -> Result<StepResult, JsError> {
         use bytecode_vm::{BytecodeVM, VmStepResult};
 
         // If there's no active VM, try to set one up from various sources
@@ -1445,6 +1467,19 @@ impl Interpreter {
     /// Returns `Ok(())` if setup succeeded, or an error if parsing/compilation failed
     /// or if imports are needed.
     pub fn prepare(
+        &mut self,
+        source: &str,
+        module_path: Option<crate::ModulePath>,
+    ) -> Result<StepResult, JsError> {
+        // (internal source modules are evaluated right here; their exceptions are reported
+        // like those step() reports)
+        match self.prepare_unmaterialized(source, module_path) {
+            Err(error) => Err(self.materialize_thrown_error(error)),
+            ok => ok,
+        }
+    }
+
+    fn prepare_unmaterialized(
         &mut self,
         source: &str,
         module_path: Option<crate::ModulePath>,
